@@ -28,6 +28,7 @@ type Ptr struct {
 type SliceV struct {
 	obj           *Object // obj.val is *ArrayV; nil for a nil slice
 	off, len, cap int
+	symLen        *Term // "length-only" slice: len() is this term, the contents are not materialised
 }
 
 type StructV struct{ f []Value }
